@@ -232,4 +232,18 @@ dst6 = os.path.join(HERE, "src", "gen_client.rs")
 if not os.path.exists(dst6) or open(dst6).read() != client_txt:
     open(dst6, "w").write(client_txt)
 client_sha = hashlib.sha256("\n".join(ctxts).encode()).hexdigest()
-print(json.dumps({"calculate_new_commit_index_sha256": leader_sha, "retrieve_to_be_synced_logs_for_peers_sha256": repl_sha, "follower_append_slices_sha256": foll_sha, "client_response_slices_sha256": client_sha, "buffered_raft_log_sha256": sha, "rewrites": {"R1_imports": removed, "R2_paths": n2, "R3": n3, "R4": n4, "R6_awaits": n6, "R7_test_helpers": n7}}))
+# ---- function slice: Raft::merge_append_entries
+RF = "d-engine-core/src/raft.rs"
+fsrc = open(os.path.join(REPO, RF)).read()
+m = re.search(r"^    fn merge_append_entries\(&mut self\) \{", fsrc, re.M)
+if not m:
+    fail("slice: fn merge_append_entries not found in " + RF)
+mfn = cut_block(fsrc, m.start(), "merge")
+merge_txt = ("// GENERATED by gen.py -- verbatim slice of " + RF + " (fn merge_append_entries)\n"
+             "#![allow(dead_code, unused_variables, unused_mut, clippy::all)]\nuse crate::mshim::*;\n"
+             "impl MergeSlice {\n" + mfn + "\n}\n#[cfg(kani)]\n#[path = \"h_merge.rs\"]\npub mod h;\n")
+dst7 = os.path.join(HERE, "src", "gen_merge.rs")
+if not os.path.exists(dst7) or open(dst7).read() != merge_txt:
+    open(dst7, "w").write(merge_txt)
+merge_sha = hashlib.sha256(mfn.encode()).hexdigest()
+print(json.dumps({"calculate_new_commit_index_sha256": leader_sha, "retrieve_to_be_synced_logs_for_peers_sha256": repl_sha, "follower_append_slices_sha256": foll_sha, "client_response_slices_sha256": client_sha, "merge_append_entries_sha256": merge_sha, "buffered_raft_log_sha256": sha, "rewrites": {"R1_imports": removed, "R2_paths": n2, "R3": n3, "R4": n4, "R6_awaits": n6, "R7_test_helpers": n7}}))
